@@ -12,7 +12,11 @@
    Go int the model's store has for it.  C17_gen_Execute: related stores, same
    processor and sequence => the generated Execute does not panic, answers
    "failed" / "retry" exactly as fexec does, and the stores are related again;
-   for ALL flow contexts, attempts values, names and ids.
+   for ALL flow contexts, attempts values and ids, and all namings of processors
+   and sequences that are injective and keep ':' out of one of the two sides
+   (ckey_inj is PROVED from that; without it two pairs can share a key, see
+   counter_key_collision).  C17_gen_Execute_bits: the statement closed for one
+   concrete naming.
 
    Not translated: getCooldownDuration (float64; a parameter of the generated
    Execute, its value is only waited for), init (load-time validation: fload),
@@ -24,18 +28,89 @@ From Verif Require C17.Gen.
 Import ListNotations.
 Open Scope Z_scope.
 
+(* ---------------------------------------------------------------- key strings *)
+
+(* a string is cut in one way only at its FIRST ':' ... *)
+Lemma cut_first_colon : forall (P P' R R' : gostring),
+  ~ In 58 P -> ~ In 58 P' -> P ++ 58 :: R = P' ++ 58 :: R' -> P = P' /\ R = R'.
+Proof.
+  induction P as [|x P IH]; intros [|y P'] R R' HP HP' E; cbn [app] in E.
+  - injection E as E. split; [reflexivity|exact E].
+  - injection E as E1 E2. exfalso. apply HP'. left. symmetry. exact E1.
+  - injection E as E1 E2. exfalso. apply HP. left. exact E1.
+  - injection E as E1 E2. subst y.
+    destruct (IH P' R R') as [-> ->]; [..|split; reflexivity].
+    + intro X. apply HP. right. exact X.
+    + intro X. apply HP'. right. exact X.
+    + exact E2.
+Qed.
+
+(* ... and at its LAST ':' *)
+Lemma cut_last_colon : forall (A A' S S' : gostring),
+  ~ In 58 S -> ~ In 58 S' -> A ++ 58 :: S = A' ++ 58 :: S' -> A = A' /\ S = S'.
+Proof.
+  induction A as [|x A IH]; intros [|y A'] S S' HS HS' E; cbn [app] in E.
+  - injection E as E. split; [reflexivity|exact E].
+  - injection E as E1 E2. exfalso. apply HS. rewrite E2. apply in_or_app. right. left. reflexivity.
+  - injection E as E1 E2. exfalso. apply HS'. rewrite <- E2. apply in_or_app. right. left. reflexivity.
+  - injection E as E1 E2. subst y.
+    destruct (IH A' S S' HS HS' E2) as [-> ->]. split; reflexivity.
+Qed.
+
+(* the key format of getCounterKey: "<processor>::retry_counter::<sequence>".
+   Different (processor, sequence) pairs can give the same string when ':' is
+   allowed on both sides ("A" + "retry_counter::x" and "A::retry_counter" + "x"
+   both give "A::retry_counter::retry_counter::x", see counter_key_collision);
+   it is enough that ONE side is free of ':' *)
+Lemma getCounterKey_inj : forall n a P P' S S',
+  (~ In 58 P /\ ~ In 58 P') \/ (~ In 58 S /\ ~ In 58 S') ->
+  Gen.getCounterKey (Gen.mk_rp P n) S = Gen.getCounterKey (Gen.mk_rp P' a) S' ->
+  P = P' /\ S = S'.
+Proof.
+  intros n a P P' S S' H E. unfold Gen.getCounterKey in E. cbn [Gen.rp_name] in E.
+  destruct H as [[HP HP']|[HS HS']].
+  - cbn [app] in E. destruct (cut_first_colon _ _ _ _ HP HP' E) as [-> E2].
+    split; [reflexivity|]. injection E2 as E2.
+    repeat (injection E2 as _ E2). exact E2.
+  - set (K := [58; 58] ++ [114;101;116;114;121;95;99;111;117;110;116;101;114] ++ [58]) in *.
+    assert (R : forall (X Y : gostring),
+      X ++ [58; 58] ++ [114;101;116;114;121;95;99;111;117;110;116;101;114] ++ [58; 58] ++ Y
+      = (X ++ K) ++ 58 :: Y).
+    { intros X Y. unfold K. rewrite <- !app_assoc. reflexivity. }
+    rewrite !R in E. destruct (cut_last_colon _ _ _ _ HS HS' E) as [E1 ->].
+    split; [|reflexivity]. apply app_inv_tail in E1. exact E1.
+Qed.
+
+Example counter_key_collision :
+  Gen.getCounterKey (Gen.mk_rp [65] 0) ([114;101;116;114;121;95;99;111;117;110;116;101;114;58;58;120])
+  = Gen.getCounterKey (Gen.mk_rp ([65;58;58;114;101;116;114;121;95;99;111;117;110;116;101;114]) 0) [120].
+Proof. reflexivity. Qed.
+
 Section Names.
 
 (* processor ids / sequence ids of the model -> the strings of the code *)
 Variable pname : Z -> gostring.
 Variable sname : Z -> gostring.
 
+(* different ids have different names, and ':' does not occur in the processor
+   names, or does not occur in the sequence ids (decidable per name; the
+   sequence ids the proxy generates are UUIDs) *)
+Hypothesis pname_inj : forall a b, pname a = pname b -> a = b.
+Hypothesis sname_inj : forall a b, sname a = sname b -> a = b.
+Hypothesis one_side_colon_free :
+  (forall p, ~ In 58 (pname p)) \/ (forall s, ~ In 58 (sname s)).
+
 Definition ckey (k : fkey) : gostring :=
   Gen.getCounterKey (Gen.mk_rp (pname (fst k)) 0) (sname (snd k)).
 
-(* distinct (processor, sequence) pairs have distinct counter keys — true when
-   the names do not contain the separator; assumed (see notes) *)
-Hypothesis ckey_inj : forall k k', ckey k = ckey k' -> k = k'.
+(* distinct (processor, sequence) pairs have distinct counter keys *)
+Lemma ckey_inj : forall k k', ckey k = ckey k' -> k = k'.
+Proof.
+  intros [p s] [p' s'] E. unfold ckey in E. cbn [fst snd] in E.
+  apply getCounterKey_inj in E.
+  - destruct E as [Ep Es]. apply pname_inj in Ep. apply sname_inj in Es. subst. reflexivity.
+  - destruct one_side_colon_free as [H|H]; [left|right]; split; apply H.
+Qed.
 
 Definition Rf (c : ctxmem) (st : fstore) : Prop :=
   forall k, smap_get c (ckey k) = option_map VInt (get fkey_eqb st k).
@@ -135,3 +210,60 @@ Proof.
 Qed.
 
 End Names.
+Print Assumptions C17_gen_Execute.
+
+(* ---------------------------------------------------------------- a concrete naming *)
+
+(* the hypotheses of the section are satisfiable: names = sign and binary
+   digits ("+101", "-11", ""), which never contain ':' *)
+Fixpoint pos_bits (p : positive) : gostring :=
+  match p with
+  | xH => [49]
+  | xO q => 48 :: pos_bits q
+  | xI q => 49 :: pos_bits q
+  end.
+
+Definition zbits (z : Z) : gostring :=
+  match z with Z0 => [] | Zpos p => 43 :: pos_bits p | Zneg p => 45 :: pos_bits p end.
+
+Lemma pos_bits_inj : forall p q, pos_bits p = pos_bits q -> p = q.
+Proof.
+  induction p as [p IH|p IH|]; intros [q|q|] E; cbn [pos_bits] in E;
+    try discriminate; try reflexivity.
+  - injection E as E. f_equal. apply IH. exact E.
+  - injection E as E. destruct p; discriminate.
+  - injection E as E. f_equal. apply IH. exact E.
+  - injection E as E. destruct q; discriminate.
+Qed.
+
+Lemma zbits_inj : forall a b, zbits a = zbits b -> a = b.
+Proof.
+  intros [|p|p] [|q|q] E; cbn [zbits] in E; try discriminate; try reflexivity;
+    injection E as E; apply pos_bits_inj in E; subst; reflexivity.
+Qed.
+
+Lemma pos_bits_no_colon : forall p, ~ In 58 (pos_bits p).
+Proof.
+  induction p as [p IH|p IH|]; cbn [pos_bits In]; intros [X|X];
+    try discriminate; try contradiction; apply IH; exact X.
+Qed.
+
+Lemma zbits_no_colon : forall z, ~ In 58 (zbits z).
+Proof.
+  intros [|p|p]; cbn [zbits In]; [tauto| |]; intros [X|X]; try discriminate;
+    apply (pos_bits_no_colon p); exact X.
+Qed.
+
+Theorem C17_gen_Execute_bits : forall cd p flowName a st pid sid,
+  Gen.rp_name p = zbits pid ->
+  as_seq a = zbits sid ->
+  Rf zbits zbits (as_flow a) st ->
+  exists a' io,
+    Gen.Execute cd p flowName a = Normal a' (io, ErrNil)
+    /\ (let '(st', o) := fexec (Gen.rp_attempts p) st (pid, sid) in
+        Rf zbits zbits (as_flow a') st' /\ out_of io = Some o)
+    /\ as_id a' = as_id a /\ as_seq a' = as_seq a /\ as_count a' = as_count a.
+Proof.
+  exact (C17_gen_Execute zbits zbits zbits_inj zbits_inj (or_introl zbits_no_colon)).
+Qed.
+Print Assumptions C17_gen_Execute_bits.
